@@ -330,6 +330,10 @@ def compare(rq, impl, model, ctx):
     op = rq.split(" ", 1)[0]
     a = rq.split()[1:]
     bump(ctx, op)
+    if tag(impl) == "timeout" and _exe(ctx):
+        # the 20 s alarm of a forked child can fire on an overloaded machine: ask once more before believing it
+        impl = _run_harness(_exe(ctx), [rq])[0]
+        bump(ctx, "timeout-retried")
     if op == "c18.det":
         return cmp_det(a, impl, ctx)
     if op == "c18.stat":
